@@ -215,6 +215,16 @@ class FA:
         """Decompose a branch test taken with the given polarity into literals (text, polarity).  A conjunction
         taken true / a disjunction taken false splits into its parts; anything else stays one literal."""
         t = test
+        if isinstance(t, ast.Name):
+            # a boolean local: open it up (`missing = k not in d` ... `if missing:`)
+            try:
+                e = self.expand(t, node_id)
+            except AnalysisError:
+                e = t
+            if not isinstance(e, ast.Name) and isinstance(e, (ast.Compare, ast.BoolOp, ast.UnaryOp)):
+                for x_ in ast.walk(e):
+                    x_._no_expand = True
+                return self._atoms(e, node_id, positive)
         if isinstance(t, ast.UnaryOp) and isinstance(t.op, ast.Not):
             return self._atoms(t.operand, node_id, not positive)
         if isinstance(t, ast.BoolOp):
